@@ -485,7 +485,8 @@ fn with_domains<F: FftField + PrimeField, D: Kind<F>>(rng: &mut Rng, cap: u64, f
         s += 1;
     }
     for n in sizes {
-        let Some(base) = D::new(n as usize) else { continue };
+        // a panic here is C07's business (domain construction); C08 just skips the size
+        let Ok(Some(base)) = guard(|| D::new(n as usize)) else { continue };
         if base.size() as u64 != n {
             continue;
         }
